@@ -1,0 +1,45 @@
+//go:build verif
+
+package postgresql
+
+// Add-only hooks for the verification harness (/verif): they expose unexported
+// packet codec steps without changing any behaviour.
+
+// VerifParseColumns runs parseColumns on the packet read last.
+func (packet *PacketHandler) VerifParseColumns(columnFormats []uint16) error {
+	return packet.parseColumns(columnFormats)
+}
+
+// VerifUpdateDataFromColumns runs updateDataFromColumns.
+func (packet *PacketHandler) VerifUpdateDataFromColumns() {
+	packet.updateDataFromColumns(nil)
+}
+
+// VerifSendPacket runs sendPacket (Marshal + write + flush).
+func (packet *PacketHandler) VerifSendPacket() error {
+	return packet.sendPacket()
+}
+
+// VerifColumnCount returns the column count of the parsed data row.
+func (packet *PacketHandler) VerifColumnCount() int {
+	return packet.columnCount
+}
+
+// VerifFields returns the parsed fields of a Bind packet.
+func (p *BindPacket) VerifFields() (string, string, []uint16, [][]byte, []uint16) {
+	return p.portal, p.statement, p.paramFormats, p.paramValues, p.resultFormats
+}
+
+// VerifSetParamValue replaces one parameter value in place (what SetParameters does per value).
+func (p *BindPacket) VerifSetParamValue(i int, value []byte) {
+	p.paramValues[i] = value
+}
+
+// VerifFields returns the parsed fields of a Parse packet.
+func (packet *ParsePacket) VerifFields() ([]byte, []byte, []byte, [][]byte) {
+	params := make([][]byte, len(packet.params))
+	for i, p := range packet.params {
+		params[i] = p
+	}
+	return packet.name, packet.query, packet.paramsNum, params
+}
